@@ -3,6 +3,7 @@ package props
 import (
 	"fmt"
 	"go/ast"
+	"go/constant"
 	"go/token"
 	"go/types"
 	"strings"
@@ -581,25 +582,54 @@ func c30Less(p *an.Prog, r *an.R) {
 		seq            int // -1: x.seq < y.seq, 0 equal, 1 greater
 	}
 	type val struct {
-		kind string // "bool", "seqx", "seqy", "statex", "statey", "fail"
+		kind string // "bool", "int", "seqx", "seqy", "statex", "statey", "fail", "itemx", "itemy"
 		b    bool
+		n    int64
 	}
+	var callHelper func(c *ast.CallExpr, w world, env map[types.Object]val, depth int) (val, bool)
+	depthNow := 0
 	errUnsupported := ""
 	var evalExpr func(e ast.Expr, w world, env map[types.Object]val) (val, bool)
 	evalExpr = func(e ast.Expr, w world, env map[types.Object]val) (val, bool) {
 		switch x := ast.Unparen(e).(type) {
+		case *ast.BasicLit:
+			if tv := info.Types[x]; tv.Value != nil {
+				if n, ok := constant.Int64Val(constant.ToInt(tv.Value)); ok {
+					return val{kind: "int", n: n}, true
+				}
+			}
+		case *ast.CallExpr:
+			if v, ok := callHelper(x, w, env, depthNow); ok {
+				return v, true
+			}
 		case *ast.Ident:
 			if v, ok := env[info.ObjectOf(x)]; ok {
 				return v, true
 			}
+			if info.ObjectOf(x) == types.Object(px) {
+				return val{kind: "itemx"}, true
+			}
+			if info.ObjectOf(x) == types.Object(py) {
+				return val{kind: "itemy"}, true
+			}
 			if info.ObjectOf(x) == failC {
 				return val{kind: "fail"}, true
+			}
+			if cst, ok := info.ObjectOf(x).(*types.Const); ok && cst.Val().Kind() == constant.Int {
+				if n, ok := constant.Int64Val(cst.Val()); ok {
+					return val{kind: "int", n: n}, true
+				}
 			}
 			if tv := info.Types[x]; tv.Value != nil && (tv.Value.String() == "true" || tv.Value.String() == "false") {
 				return val{kind: "bool", b: tv.Value.String() == "true"}, true
 			}
 		case *ast.SelectorExpr:
-			isX, isY := isIdentOf(info, x.X, px), isIdentOf(info, x.X, py)
+			isX, isY := false, false
+			if bid, ok := ast.Unparen(x.X).(*ast.Ident); ok {
+				if bv, ok := evalExpr(bid, w, env); ok {
+					isX, isY = bv.kind == "itemx", bv.kind == "itemy"
+				}
+			}
 			if isX || isY {
 				switch x.Sel.Name {
 				case "indexed":
@@ -644,6 +674,37 @@ func c30Less(p *an.Prog, r *an.R) {
 				return false, false
 			}
 			switch {
+			case a.kind == "int" && b.kind == "int":
+				switch x.Op {
+				case token.ADD:
+					return val{kind: "int", n: a.n + b.n}, true
+				case token.SUB:
+					return val{kind: "int", n: a.n - b.n}, true
+				case token.MUL:
+					return val{kind: "int", n: a.n * b.n}, true
+				case token.OR:
+					return val{kind: "int", n: a.n | b.n}, true
+				case token.AND:
+					return val{kind: "int", n: a.n & b.n}, true
+				case token.XOR:
+					return val{kind: "int", n: a.n ^ b.n}, true
+				case token.SHL:
+					if b.n >= 0 && b.n < 62 {
+						return val{kind: "int", n: a.n << uint(b.n)}, true
+					}
+				case token.LSS:
+					return val{kind: "bool", b: a.n < b.n}, true
+				case token.LEQ:
+					return val{kind: "bool", b: a.n <= b.n}, true
+				case token.GTR:
+					return val{kind: "bool", b: a.n > b.n}, true
+				case token.GEQ:
+					return val{kind: "bool", b: a.n >= b.n}, true
+				case token.EQL:
+					return val{kind: "bool", b: a.n == b.n}, true
+				case token.NEQ:
+					return val{kind: "bool", b: a.n != b.n}, true
+				}
 			case a.kind == "bool" && b.kind == "bool":
 				switch x.Op {
 				case token.EQL:
@@ -693,47 +754,117 @@ func c30Less(p *an.Prog, r *an.R) {
 		return val{}, false
 	}
 	// statements: returns (result, returned, ok)
-	var evalStmts func(list []ast.Stmt, w world, env map[types.Object]val) (bool, bool, bool)
-	evalStmts = func(list []ast.Stmt, w world, env map[types.Object]val) (bool, bool, bool) {
+	var evalStmts func(list []ast.Stmt, w world, env map[types.Object]val) (val, bool, bool)
+	none := val{}
+	assignOp := map[token.Token]token.Token{token.ADD_ASSIGN: token.ADD, token.SUB_ASSIGN: token.SUB, token.OR_ASSIGN: token.OR, token.AND_ASSIGN: token.AND, token.XOR_ASSIGN: token.XOR, token.SHL_ASSIGN: token.SHL, token.MUL_ASSIGN: token.MUL}
+	evalStmts = func(list []ast.Stmt, w world, env map[types.Object]val) (val, bool, bool) {
 		for _, st := range list {
 			switch x := st.(type) {
 			case *ast.ReturnStmt:
 				if len(x.Results) != 1 {
-					return false, false, false
+					return none, false, false
 				}
 				v, ok := evalExpr(x.Results[0], w, env)
-				if !ok || v.kind != "bool" {
-					return false, false, false
+				if !ok || (v.kind != "bool" && v.kind != "int") {
+					return none, false, false
 				}
-				return v.b, true, true
+				return v, true, true
+			case *ast.DeclStmt:
+				gd, ok := x.Decl.(*ast.GenDecl)
+				if !ok || gd.Tok != token.VAR {
+					errUnsupported = "declaration"
+					return none, false, false
+				}
+				for _, sp := range gd.Specs {
+					vs := sp.(*ast.ValueSpec)
+					for i, nm := range vs.Names {
+						var v val
+						if i < len(vs.Values) {
+							var ok bool
+							if v, ok = evalExpr(vs.Values[i], w, env); !ok {
+								return none, false, false
+							}
+						} else if b, isB := info.ObjectOf(nm).Type().Underlying().(*types.Basic); isB && b.Info()&types.IsInteger != 0 {
+							v = val{kind: "int"}
+						} else if isB && b.Kind() == types.Bool {
+							v = val{kind: "bool"}
+						} else {
+							errUnsupported = "var " + nm.Name
+							return none, false, false
+						}
+						env[info.ObjectOf(nm)] = v
+					}
+				}
+			case *ast.IncDecStmt:
+				id, ok := x.X.(*ast.Ident)
+				cur, has := env[info.ObjectOf(id)]
+				if !ok || !has || cur.kind != "int" {
+					errUnsupported = "inc/dec"
+					return none, false, false
+				}
+				if x.Tok == token.INC {
+					cur.n++
+				} else {
+					cur.n--
+				}
+				env[info.ObjectOf(id)] = cur
 			case *ast.AssignStmt:
 				if len(x.Lhs) != len(x.Rhs) {
-					return false, false, false
+					return none, false, false
 				}
 				vals := make([]val, len(x.Rhs))
 				for i, rh := range x.Rhs {
 					v, ok := evalExpr(rh, w, env)
 					if !ok {
-						return false, false, false
+						return none, false, false
 					}
 					vals[i] = v
 				}
 				for i, lh := range x.Lhs {
 					id, ok := lh.(*ast.Ident)
 					if !ok {
-						return false, false, false
+						return none, false, false
+					}
+					if op, isOp := assignOp[x.Tok]; isOp {
+						cur, has := env[info.ObjectOf(id)]
+						if !has || cur.kind != "int" || vals[i].kind != "int" {
+							errUnsupported = "compound assignment"
+							return none, false, false
+						}
+						switch op {
+						case token.ADD:
+							cur.n += vals[i].n
+						case token.SUB:
+							cur.n -= vals[i].n
+						case token.OR:
+							cur.n |= vals[i].n
+						case token.AND:
+							cur.n &= vals[i].n
+						case token.XOR:
+							cur.n ^= vals[i].n
+						case token.MUL:
+							cur.n *= vals[i].n
+						case token.SHL:
+							cur.n <<= uint(vals[i].n & 63)
+						}
+						env[info.ObjectOf(id)] = cur
+						continue
+					}
+					if x.Tok != token.ASSIGN && x.Tok != token.DEFINE {
+						errUnsupported = x.Tok.String()
+						return none, false, false
 					}
 					env[info.ObjectOf(id)] = vals[i]
 				}
 			case *ast.IfStmt:
 				if x.Init != nil {
 					if _, _, ok := evalStmts([]ast.Stmt{x.Init}, w, env); !ok {
-						return false, false, false
+						return none, false, false
 					}
 				}
 				c, ok := evalExpr(x.Cond, w, env)
 				if !ok || c.kind != "bool" {
-					return false, false, false
+					return none, false, false
 				}
 				if c.b {
 					if res, ret, ok := evalStmts(x.Body.List, w, env); !ok || ret {
@@ -751,16 +882,124 @@ func c30Less(p *an.Prog, r *an.R) {
 						return res, ret, ok
 					}
 				}
+			case *ast.SwitchStmt:
+				if x.Init != nil {
+					if _, _, ok := evalStmts([]ast.Stmt{x.Init}, w, env); !ok {
+						return none, false, false
+					}
+				}
+				var tag *val
+				if x.Tag != nil {
+					tv, ok := evalExpr(x.Tag, w, env)
+					if !ok {
+						return none, false, false
+					}
+					tag = &tv
+				}
+				var chosen, deflt *ast.CaseClause
+				for _, cc := range x.Body.List {
+					cl := cc.(*ast.CaseClause)
+					if cl.List == nil {
+						deflt = cl
+						continue
+					}
+					for _, ce := range cl.List {
+						cv, ok := evalExpr(ce, w, env)
+						if !ok {
+							return none, false, false
+						}
+						hit := false
+						switch {
+						case tag == nil:
+							hit = cv.kind == "bool" && cv.b
+						case tag.kind == "bool" && cv.kind == "bool":
+							hit = tag.b == cv.b
+						case tag.kind == "int" && cv.kind == "int":
+							hit = tag.n == cv.n
+						case (tag.kind == "statex" || tag.kind == "statey") && cv.kind == "fail":
+							hit = (tag.kind == "statex" && w.xf) || (tag.kind == "statey" && w.yf)
+						default:
+							errUnsupported = "switch over " + tag.kind
+							return none, false, false
+						}
+						if hit && chosen == nil {
+							chosen = cl
+						}
+					}
+					if chosen != nil {
+						break
+					}
+				}
+				if chosen == nil {
+					chosen = deflt
+				}
+				if chosen != nil {
+					for _, bs := range chosen.Body {
+						if br, ok := bs.(*ast.BranchStmt); ok && br.Tok == token.FALLTHROUGH {
+							errUnsupported = "fallthrough"
+							return none, false, false
+						}
+					}
+					if res, ret, ok := evalStmts(chosen.Body, w, env); !ok || ret {
+						return res, ret, ok
+					}
+				}
 			case *ast.BlockStmt:
 				if res, ret, ok := evalStmts(x.List, w, env); !ok || ret {
 					return res, ret, ok
 				}
 			default:
 				errUnsupported = fmt.Sprintf("%T", st)
-				return false, false, false
+				return none, false, false
 			}
 		}
-		return false, false, true
+		return none, false, true
+	}
+	// a call to a small function or method of the package whose arguments are the items (or values computed from
+	// them): its body is evaluated the same way, the parameters bound to the argument values
+	callHelper = func(c *ast.CallExpr, w world, env map[types.Object]val, depth int) (val, bool) {
+		if depth >= 3 {
+			errUnsupported = "helper nesting"
+			return none, false
+		}
+		callee := an.Callee(info, c)
+		hd := p.Decl(callee)
+		if callee == nil || hd == nil || hd.Pkg != d.Pkg || hd.Decl.Body == nil {
+			return none, false
+		}
+		henv := map[types.Object]val{}
+		if hd.Decl.Recv != nil && len(hd.Decl.Recv.List) == 1 && len(hd.Decl.Recv.List[0].Names) == 1 {
+			se, ok := ast.Unparen(c.Fun).(*ast.SelectorExpr)
+			if !ok {
+				return none, false
+			}
+			rv, ok := evalExpr(se.X, w, env)
+			if !ok {
+				return none, false
+			}
+			henv[info.ObjectOf(hd.Decl.Recv.List[0].Names[0])] = rv
+		}
+		k := 0
+		for _, fl := range hd.Decl.Type.Params.List {
+			for _, nm := range fl.Names {
+				if k >= len(c.Args) {
+					return none, false
+				}
+				av, ok := evalExpr(c.Args[k], w, env)
+				if !ok {
+					return none, false
+				}
+				henv[info.ObjectOf(nm)] = av
+				k++
+			}
+		}
+		depthNow = depth + 1
+		res, ret, ok := evalStmts(hd.Decl.Body.List, w, henv)
+		depthNow = depth
+		if !ok || !ret {
+			return none, false
+		}
+		return res, true
 	}
 	cases, wrong := 0, ""
 	decided := true
@@ -770,11 +1009,12 @@ func c30Less(p *an.Prog, r *an.R) {
 				for _, yf := range []bool{false, true} {
 					for _, sq := range []int{-1, 0, 1} {
 						w := world{xi, yi, xf, yf, sq}
-						got, ret, ok := evalStmts(d.Decl.Body.List, w, map[types.Object]val{})
-						if !ok || !ret {
+						gotV, ret, ok := evalStmts(d.Decl.Body.List, w, map[types.Object]val{})
+						if !ok || !ret || gotV.kind != "bool" {
 							decided = false
 							continue
 						}
+						got := gotV.b
 						cases++
 						var want bool
 						switch {
